@@ -1,0 +1,208 @@
+//go:build verif
+
+package engine
+
+// Contracts for govc: \+/1 (Negate), call/N (callN, Call1..Call7), call_nth/2 (CallNth), repeat/0 (Repeat, repeat).
+// Properties C03 (cut is local inside call/N and \+; \+ solves its goal at most once, succeeds iff there is no
+// answer, leaves no bindings) and C13 (nested trampolines inherit the caller's context; repetition goes through the
+// trampoline, not through a Go loop).
+
+//@ ---------------------------------------------------------------- \+/1 (C03, C13)
+
+//@ -- Negate: nothing is run when the built-in is called; the goal runs as ONE delayed step of the caller's trampoline,
+//@ -- which hands that step the context it polls
+//@ func Negate
+//@   property C03 C13
+//@   nosafety
+//@   frozen vm, goal, k, env
+//@   bind d = Delay#1
+//@   bind own = Call#1
+//@   bind ownok, ownerr = (*Promise).Force#1
+//@   at-call Delay requires[the-negation-is-one-delayed-step-made-here] len(a0) == 1 && fresh(a0)
+//@   ensures[the-delayed-step-is-what-is-returned] called(d) && result == d
+//@   ensures[the-goal-is-not-run-before-the-trampoline-takes-that-step] !called(own) && !called(ownerr)
+//@   calls k atmost 0
+
+//@ func Negate$1
+//@   property C03 C13
+//@   nosafety
+//@   calls k atmost 1
+//@   bind g = Call#1
+//@   bind fok, ferr = (*Promise).Force#1
+//@   bind fok2, ferr2 = (*Promise).Force#2
+//@   bind e = Error#1
+//@   at-call Call requires[the-goal-is-run-through-call-so-that-a-cut-in-it-is-local-in-the-caller-s-environment] a0 == vm && a1 == goal && a3 == env
+//@   at-call Call requires[the-goal-s-continuation-succeeds-at-once-nothing-of-the-caller-runs-inside-the-negation] a2 == Success
+//@   at-call (*Promise).Force requires[the-nested-trampoline-runs-the-promise-of-that-call] called(g) && a0 == g
+//@   at-call (*Promise).Force requires[the-nested-trampoline-inherits-the-context-the-outer-trampoline-handed-to-this-step] a1 == ctx
+//@   at-call Error requires[the-error-of-the-goal-is-passed-on-as-it-is] called(ferr) && ferr != nil && a0 == ferr
+//@   at-call Bool requires[the-only-answer-the-negation-gives-by-itself-is-failure-and-only-when-the-goal-has-an-answer] !a0 && called(ferr) && ferr == nil && fok
+//@   ensures[the-goal-is-solved-once] called(ferr) && !called(ferr2)
+//@   ensures[an-error-of-the-goal-is-the-error-of-the-negation] ferr != nil ==> called(e) && result == e
+//@   ensures[an-answer-of-the-goal-is-the-failure-of-the-negation] ferr == nil && fok ==> result == falsePromise
+//@   onk[the-negation-succeeds-only-when-the-goal-has-no-answer-and-no-error] called(ferr) && ferr == nil && !fok
+//@   onk[the-caller-goes-on-in-its-own-environment-no-binding-of-the-goal-leaks] kenv == env
+//@   nok[when-the-goal-has-no-answer-and-no-error-the-caller-goes-on] !(ferr == nil && !fok)
+
+//@ ---------------------------------------------------------------- repeat/0 (C13)
+
+//@ -- repeat: a promise whose single alternative is offered again and again BY THE TRAMPOLINE ((*Promise).child keeps
+//@ -- the alternative of a promise whose repeat flag is set), so that a poll of the context precedes every round
+//@ func repeat
+//@   property C13
+//@   modifies nothing
+//@   ensures[fresh] result != nil && fresh(result)
+//@   ensures[one-alternative-that-the-trampoline-offers-again-and-again] len(result.delayed) == 1 && result.delayed[0] == k && result.repeat
+//@   ensures[no-cut-no-handler-no-error] result.cutParent == nil && result.recover == nil && result.err == nil
+
+//@ func Repeat
+//@   property C13
+//@   nosafety
+//@   frozen k, env
+//@   bind r = repeat#1
+//@   at-call repeat requires[the-repeated-step-is-made-here] fresh(a0)
+//@   ensures[the-repeating-promise-is-what-is-returned] called(r) && result == r
+//@   calls k atmost 0
+
+//@ func Repeat$1
+//@   property C13
+//@   nosafety
+//@   calls k atmost 1
+//@   onk[each-round-continues-in-the-caller-s-environment] kenv == env
+//@   ensures[each-round-is-exactly-one-call-of-the-continuation] kcalls() == 1
+//@   bind ownb = Bool#1
+//@   bind owne = Error#1
+//@   ensures[a-round-gives-no-answer-of-its-own] !called(ownb) && !called(owne)
+//@   never-calls (*Promise).Force
+
+//@ ---------------------------------------------------------------- call/N (C03)
+
+//@ -- accessorArg(f, i): the term the argument accessor f (the second result of piArg) answers for index i
+//@ spec abstract accessorArg(f Cont, i int) Term
+
+//@ func callN
+//@   property C03
+//@   nosafety
+//@   bind pi, argfn, perr = piArg#1
+//@   bind room, merr = makeSlice#1
+//@   bind pe = Error#1
+//@   bind all = append#1
+//@   bind r = Call#1
+//@   assume-call ensures result == accessorArg(fn, a0)
+//@   assume-call preserves elems(args)
+//@   at-call piArg requires[the-closure-is-taken-apart-under-the-caller-s-bindings] a0 == closure && a1 == env
+//@   at-call Error#1 requires[a-closure-that-is-a-variable-or-not-callable-is-the-error-piArg-reports] called(perr) && perr != nil && a0 == perr
+//@   ensures[a-closure-that-cannot-be-called-ends-in-that-error] perr != nil ==> called(pe) && result == pe
+//@   at-call makeSlice requires[room-for-the-closure-s-own-arguments-and-the-additional-ones] perr == nil && a0 == wrap64(pi.arity + len(additional))
+//@   bind re = resourceError#1
+//@   bind pe2 = Error#2
+//@   at-call resourceError requires[no-room-is-a-memory-resource-error-in-the-caller-s-environment] perr == nil && merr != nil && a0 == resourceMemory && a1 == env
+//@   at-call Error#2 requires[that-resource-error-is-what-is-raised] called(re) && a0 == re
+//@   ensures[no-room-ends-in-that-error] perr == nil && merr != nil ==> called(pe2) && result == pe2
+//@   at-call dynamic requires[the-closure-s-own-arguments-are-read-with-its-accessor-each-at-its-index] fn == argfn && a0 == i
+//@   loop 1 invariant 0 <= i && len(args) == pi.arity && backing(args) == backing(room) && offset(args) == offset(room) && perr == nil && merr == nil
+//@   loop 1 invariant[the-closure-s-own-arguments-come-first-in-order] forall j int :: 0 <= j && j < i ==> args[j] == accessorArg(argfn, j)
+//@   at-call append requires[the-additional-arguments-are-appended-to-the-closure-s-own] len(a0) == pi.arity && backing(a0) == backing(room) && offset(a0) == offset(room) && a1 == additional
+//@   at-call append requires[all-the-closure-s-own-arguments-are-there-in-order] forall j int :: 0 <= j && j < pi.arity ==> a0[j] == accessorArg(argfn, j)
+//@   at-call Call requires[the-goal-is-called-through-call-with-the-caller-s-vm-continuation-and-environment] a0 == vm && a2 == k && a3 == env
+//@   at-call Call requires[an-atom-without-additional-arguments-is-called-as-it-is] called(all) && (len(all) == 0 ==> a1 is Atom && (a1 as Atom) == pi.name)
+//@   at-call Call requires[the-functor-is-kept-and-the-arguments-are-the-closure-s-own-followed-by-the-additional-ones] called(all) && (len(all) > 0 ==>
+//@       a1 is *compound && (a1 as *compound).functor == pi.name && (a1 as *compound).args == all)
+//@   ensures[a-callable-closure-is-called] perr == nil && merr == nil ==> called(r) && result == r
+
+//@ -- call/2..call/8: the additional arguments are handed to callN in the order given, with the caller's vm, continuation
+//@ -- and environment; the result is callN's
+//@ func Call1
+//@   property C03
+//@   nosafety
+//@   bind r = callN#1
+//@   at-call callN requires[the-closure-is-called-with-the-caller-s-vm-continuation-and-environment] a0 == vm && a1 == closure && a3 == k && a4 == env
+//@   at-call callN requires[exactly-the-additional-arguments-given-in-the-order-given] len(a2) == 1 && a2[0] == arg1
+//@   ensures[its-result-is-that-call-s] called(r) && result == r
+
+//@ func Call2
+//@   property C03
+//@   nosafety
+//@   bind r = callN#1
+//@   at-call callN requires[the-closure-is-called-with-the-caller-s-vm-continuation-and-environment] a0 == vm && a1 == closure && a3 == k && a4 == env
+//@   at-call callN requires[exactly-the-additional-arguments-given-in-the-order-given] len(a2) == 2 && a2[0] == arg1 && a2[1] == arg2
+//@   ensures[its-result-is-that-call-s] called(r) && result == r
+
+//@ func Call3
+//@   property C03
+//@   nosafety
+//@   bind r = callN#1
+//@   at-call callN requires[the-closure-is-called-with-the-caller-s-vm-continuation-and-environment] a0 == vm && a1 == closure && a3 == k && a4 == env
+//@   at-call callN requires[exactly-the-additional-arguments-given-in-the-order-given] len(a2) == 3 && a2[0] == arg1 && a2[1] == arg2 && a2[2] == arg3
+//@   ensures[its-result-is-that-call-s] called(r) && result == r
+
+//@ func Call4
+//@   property C03
+//@   nosafety
+//@   bind r = callN#1
+//@   at-call callN requires[the-closure-is-called-with-the-caller-s-vm-continuation-and-environment] a0 == vm && a1 == closure && a3 == k && a4 == env
+//@   at-call callN requires[exactly-the-additional-arguments-given-in-the-order-given] len(a2) == 4 && a2[0] == arg1 && a2[1] == arg2 && a2[2] == arg3 && a2[3] == arg4
+//@   ensures[its-result-is-that-call-s] called(r) && result == r
+
+//@ func Call5
+//@   property C03
+//@   nosafety
+//@   bind r = callN#1
+//@   at-call callN requires[the-closure-is-called-with-the-caller-s-vm-continuation-and-environment] a0 == vm && a1 == closure && a3 == k && a4 == env
+//@   at-call callN requires[exactly-the-additional-arguments-given-in-the-order-given] len(a2) == 5 && a2[0] == arg1 && a2[1] == arg2 && a2[2] == arg3 && a2[3] == arg4 && a2[4] == arg5
+//@   ensures[its-result-is-that-call-s] called(r) && result == r
+
+//@ func Call6
+//@   property C03
+//@   nosafety
+//@   bind r = callN#1
+//@   at-call callN requires[the-closure-is-called-with-the-caller-s-vm-continuation-and-environment] a0 == vm && a1 == closure && a3 == k && a4 == env
+//@   at-call callN requires[exactly-the-additional-arguments-given-in-the-order-given] len(a2) == 6 && a2[0] == arg1 && a2[1] == arg2 && a2[2] == arg3 && a2[3] == arg4 && a2[4] == arg5 && a2[5] == arg6
+//@   ensures[its-result-is-that-call-s] called(r) && result == r
+
+//@ func Call7
+//@   property C03
+//@   nosafety
+//@   bind r = callN#1
+//@   at-call callN requires[the-closure-is-called-with-the-caller-s-vm-continuation-and-environment] a0 == vm && a1 == closure && a3 == k && a4 == env
+//@   at-call callN requires[exactly-the-additional-arguments-given-in-the-order-given] len(a2) == 7 && a2[0] == arg1 && a2[1] == arg2 && a2[2] == arg3 && a2[3] == arg4 && a2[4] == arg5 && a2[5] == arg6 && a2[6] == arg7
+//@   ensures[its-result-is-that-call-s] called(r) && result == r
+
+//@ ---------------------------------------------------------------- call_nth/2 (C03)
+
+//@ -- CallNth: the count is resolved first; a negative count is a domain error, a non-integer a type error, zero fails;
+//@ -- otherwise the goal is run through Call (cut local) with the caller's vm and environment and with the counting
+//@ -- continuation made here (CallNth$1, which has its own contract); that continuation sees the resolved count, a counter
+//@ -- that starts at zero, the caller's continuation and - in p - the very promise Call returned, which is what it cuts to
+//@ func CallNth
+//@   property C03
+//@   nosafety
+//@   frozen vm, goal, k, env
+//@   let n0 = resolve(env, nth)
+//@   bind c = Call#1
+//@   bind de = domainError#1
+//@   bind te = typeError#1
+//@   bind ee = Error#1
+//@   bind ee2 = Error#2
+//@   at-call (*Env).Resolve requires[the-count-is-read-under-the-caller-s-bindings] a0 == env && a1 == nth
+//@   at-call domainError requires[a-negative-count-is-a-domain-error-not-less-than-zero-with-the-count-as-culprit] n0 is Integer && (n0 as Integer) < 0 &&
+//@       a0 == validDomainNotLessThanZero && a1 == n0 && a2 == env
+//@   at-call typeError requires[a-count-that-is-neither-a-variable-nor-an-integer-is-a-type-error-integer-with-the-count-as-culprit] !(n0 is Variable) && !(n0 is Integer) &&
+//@       a0 == validTypeInteger && a1 == n0 && a2 == env
+//@   at-call Error#1 requires[the-domain-error-is-what-is-raised] called(de) && a0 == de
+//@   at-call Error#2 requires[the-type-error-is-what-is-raised] called(te) && a0 == te
+//@   ensures[a-negative-count-raises] n0 is Integer && (n0 as Integer) < 0 ==> called(ee) && result == ee
+//@   ensures[a-count-of-another-type-raises] !(n0 is Variable) && !(n0 is Integer) ==> called(ee2) && result == ee2
+//@   ensures[the-zeroth-answer-does-not-exist] n0 is Integer && (n0 as Integer) == 0 ==> result == falsePromise && !called(c)
+//@   at-call Call requires[the-goal-is-run-only-for-an-unbound-or-positive-count] n0 is Variable || (n0 is Integer && (n0 as Integer) > 0)
+//@   at-call Call requires[the-goal-is-run-through-call-so-that-a-cut-in-it-is-local-with-the-caller-s-vm-and-environment] a0 == vm && a1 == goal && a3 == env
+//@   at-call Call requires[its-continuation-is-the-counting-closure-made-here] fresh(a2)
+//@   at-call Call requires[the-counting-closure-sees-the-resolved-count-a-counter-at-zero-and-the-caller-s-environment-for-its-error] local(nth, Term) == n0 && n == 0 && parentEnv == env
+//@   ensures[an-unbound-or-positive-count-runs-the-goal-and-the-result-is-that-call-s] n0 is Variable || (n0 is Integer && (n0 as Integer) > 0) ==> called(c) && result == c
+//@   ensures[the-counting-closure-cuts-to-the-promise-of-this-very-call] called(c) ==> p == c
+
+//@ -- what runs once the remaining answers of the goal are cut: the unification of the count, which was already made
+//@ func CallNth$1$1
+//@   property C03
+//@   nosafety
+//@   ensures[after-the-cut-the-answer-goes-on-as-the-unification-of-the-count-decided] result == u
